@@ -29,6 +29,14 @@ type caseSpec struct {
 	Siblings int   `json:"siblings,omitempty"`
 	Delays   []int `json:"delays,omitempty"`
 
+	// StartItems (kinds start / start-mgmt): healthy managed items the start routine
+	// launches (and sees running) before it panics; they wait for their context. A later
+	// management pass starts the module again, then the system is stopped.
+	StartItems []string `json:"start_items,omitempty"`
+	// Linger (kinds stop / stop-mgmt): a healthy worker of the module whose stop routine
+	// panics outlives the (small) stop timeout; it is released by the timeout event.
+	Linger bool `json:"linger,omitempty"`
+
 	// StdErr: leave the default stderr error report on (production default) or not.
 	StdErr bool `json:"stderr"`
 
